@@ -251,3 +251,40 @@ pub fn upstream(v: usize) -> Option<upstream::A2mlTest> {
     }
     Some(t)
 }
+
+// ---------------------------------------------------------------------------------------------- 6: Reuse
+pub fn reuse(v: usize) -> Option<reuse::Reuse> {
+    use reuse::*;
+    if v >= 4 * N_BASE {
+        return None;
+    }
+    let mut t = Reuse::new();
+    if v == 0 {
+        return Some(t); // nothing at all (empty taggedunion)
+    }
+    // odd: "CAN", even: "ETH"; presence of the two reused members: none, TIMING, LIMITS, both; k selects the values
+    let (timing, limits) = [(false, false), (true, false), (false, true), (true, true)][(v / 2) % 4];
+    let k = v / 8;
+    if v % 2 == 1 {
+        // the first occurrences of the tags: types Timing (CanMode, u32) and Limits (Range16)
+        let mut c = Can::new(p(U16, k, 0));
+        if timing {
+            c.timing = Some(Timing::new([CanMode::Classic, CanMode::Fd][(k / 2) % 2], p(U32, k, 0)));
+        }
+        if limits {
+            c.limits = Some(Limits::new(Range16::new(p(I16, k, 0), p(I16, k, 1))));
+        }
+        t.can = Some(c);
+    } else {
+        // the second occurrences: the macro names their types Timing2 (EthMode, u64) and Limits2 (Range32)
+        let mut e = Eth::new(p(U16, k, 1));
+        if timing {
+            e.timing = Some(Timing2::new([EthMode::Udp, EthMode::Tcp][(k / 2) % 2], p(U64, k, 0)));
+        }
+        if limits {
+            e.limits = Some(Limits2::new(Range32::new(p(I32, k, 0), p(I32, k, 1))));
+        }
+        t.eth = Some(e);
+    }
+    Some(t)
+}
